@@ -17,10 +17,27 @@ structure Cfg where
   flushOnClose : Bool
   /-- `SetHeader` returns an error once `headerC` is closed (fix f637124) -/
   rejectLate : Bool
+  /-- `SendMsg` hands over `proto.Clone(m)` instead of the sender's object (fix be22473) -/
+  snapshotOnSend : Bool
+  /-- the handler's SendMsg / RecvMsg return the context's status once the context has ended, not
+  io.EOF (fix 3d4f9fa) -/
+  srvCtxErr : Bool
   deriving DecidableEq, Repr
 
-def Cfg.current : Cfg := ⟨true, true⟩
-def Cfg.legacy : Cfg := ⟨false, false⟩
+def Cfg.current : Cfg := ⟨true, true, true, true⟩
+def Cfg.legacy : Cfg := ⟨false, false, false, false⟩
+
+/-- Message objects live in a heap: `cells` maps a reference to the payload stored there (newest
+binding first), `next` is the next fresh reference. -/
+structure Heap where
+  next : Nat := 0
+  cells : List (Nat × Nat) := []
+  deriving DecidableEq, Repr
+
+def Heap.get (h : Heap) (r : Nat) : Nat := (h.cells.lookup r).getD 0
+def Heap.set (h : Heap) (r v : Nat) : Heap := { h with cells := (r, v) :: h.cells }
+/-- `new(T)` / `proto.Clone`: a fresh object holding `v`. -/
+def Heap.alloc (h : Heap) (v : Nat) : Heap × Nat := ({ next := h.next + 1, cells := (h.next, v) :: h.cells }, h.next)
 
 namespace Wrap
 
@@ -30,6 +47,11 @@ structure State where
   trailer : MD := []
   closed : Option Fin := none      -- Close(err) was called: closeErr = err, serverSend closed, ctx done
   ctxErr : Option Abort := none    -- the parent (caller's) context ended
+  heap : Heap := {}                -- the message objects of both sides
+  cOwn : List Nat := []            -- objects the client code holds (its requests, its response values)
+  sOwn : List Nat := []            -- objects the handler holds
+  cObj : Option Nat := none        -- the one request object of a client that reuses it
+  sObj : Option Nat := none        -- the one response object of a handler that reuses it
   deriving DecidableEq, Repr
 
 /-- `serverStream.SetHeader`: empty md is a no-op; after the latch is closed an error (current code);
@@ -85,11 +107,81 @@ def terminal (w : State) : Option Ev :=
     | some a => some (.aborted a)
     | none => none
 
+/-! ### Messages across the boundary (`SendMsg` … `RecvMsg`, `snapshot`, `permissiveProtoMerge`) -/
+
+def own (w : State) : Dir → List Nat
+  | .c2s => w.cOwn
+  | .s2c => w.sOwn
+
+/-- The side that receives what `d` sends. -/
+def flipDir : Dir → Dir
+  | .c2s => .s2c
+  | .s2c => .c2s
+
+def addOwn (w : State) (d : Dir) (r : Nat) : State :=
+  match d with
+  | .c2s => { w with cOwn := r :: w.cOwn }
+  | .s2c => { w with sOwn := r :: w.sOwn }
+
+/-- The one message object of a sender that reuses it. -/
+def obj (w : State) : Dir → Option Nat
+  | .c2s => w.cObj
+  | .s2c => w.sObj
+
+def setObj (w : State) (d : Dir) (r : Nat) : State :=
+  match d with
+  | .c2s => { w with cObj := some r }
+  | .s2c => { w with sObj := some r }
+
+/-- Side `d` creates a message object holding `v` (`new(T)` / `&T{...}`). -/
+def newObj (w : State) (d : Dir) (v : Nat) : State × Nat :=
+  (addOwn { w with heap := (w.heap.alloc v).1 } d w.heap.next, w.heap.next)
+
+/-- A clone held by neither side (`proto.Clone` inside `snapshot`). -/
+def allocFree (w : State) (v : Nat) : State × Nat :=
+  ({ w with heap := (w.heap.alloc v).1 }, w.heap.next)
+
+/-- The owner of `r` writes `v` into its object. -/
+def poke (w : State) (r v : Nat) : State := { w with heap := w.heap.set r v }
+
+/-- The sending side gets hold of the object it is going to send and writes payload `m` into it: a new
+object, or — when it reuses its message — the one object it always sends. -/
+def senderObj (w : State) (d : Dir) (reuse : Bool) (m : Nat) : State × Nat :=
+  if reuse then
+    match obj w d with
+    | some r => (poke w r m, r)
+    | none => (setObj (newObj w d m).1 d (newObj w d m).2, (newObj w d m).2)
+  else newObj w d m
+
+/-- `SendMsg(r)` up to its return: what goes over the channel is `snapshot(r)` = a fresh clone held by
+nobody (current code) or `r` itself (legacy). -/
+def sendMsg (c : Cfg) (w : State) (r : Nat) : State × Nat :=
+  if c.snapshotOnSend then allocFree w (w.heap.get r) else (w, r)
+
+/-- `RecvMsg(dst)`: the receiver's own new object gets the content of what came over the channel
+(`permissiveProtoMerge`); the receiver holds only its own object afterwards. The result is the
+payload it reads from its object. -/
+def recvMsg (w : State) (d : Dir) (handed : Nat) : State × Nat :=
+  ((newObj w (flipDir d) (w.heap.get handed)).1, w.heap.get handed)
+
+/-- The payload a reusing sender writes into its object right after SendMsg returned. -/
+def poison : Nat := 99
+
+/-- One message across the boundary, in the order things happen in the Go code: the sender fills its
+object, `SendMsg` returns after the channel hand-over, a reusing sender overwrites its object at once,
+and only then the receiver merges what it was handed into its own object. -/
+def xfer (c : Cfg) (w : State) (dir : Dir) (m : Nat) (reuse : Bool) : State × Nat :=
+  let a := senderObj w dir reuse m
+  let b := sendMsg c a.1 a.2
+  let w3 := if reuse then poke b.1 a.2 poison else b.1
+  recvMsg w3 dir b.2
+
 def impl (c : Cfg) : Impl State where
   setHeader := setHeader c
   sendHeader := sendHeader
   setTrailer := setTrailer
   preSend := sendHeaderIfNeeded
+  xfer := xfer c
   close := close c
   abort := abort
   header := header
